@@ -29,6 +29,10 @@ pub enum Op {
     Find { base: String, variants: Option<Vec<String>>, numbered: bool },
     Next { tag: String },
     MarkNext { tag: String },
+    /// mark the k-th still unconsumed occurrence (k >= 1: not the first) as consumed, i.e. consumption
+    /// out of input order as `parse_sequences` does when it marks a whole sequence
+    #[serde(alias = "MarkAt")]
+    MarkLater { tag: String, k: usize },
 }
 
 #[derive(Clone, Debug, Serialize, Deserialize)]
@@ -278,6 +282,16 @@ fn judge_history(text: &str, ops: &[Op], l: &mut Local, case: &Case, stratum: &s
                     }
                 }
             }
+            Op::MarkLater { tag, k } => {
+                if let Some(vs) = map.get(tag) {
+                    let un: Vec<usize> = vs.iter().map(|x| x.1).filter(|p| !consumed.contains(&(tag.clone(), *p))).collect();
+                    if un.len() >= 2 {
+                        let p = un[1 + (*k % (un.len() - 1))];
+                        tracker.mark_consumed(tag, p);
+                        consumed.insert((tag.clone(), p));
+                    }
+                }
+            }
             Op::MarkNext { tag } => {
                 if let Some(vs) = map.get(tag)
                     && let Some((_, p)) = vs.iter().find(|(_, p)| !consumed.contains(&(tag.clone(), *p)))
@@ -420,6 +434,7 @@ fn random_ops(map_tags: &[String], r: &mut Rng, n: usize) -> Vec<Op> {
                 ops.push(Op::Find { base, variants, numbered: r.chance(1, 4) });
             }
             6..=7 => ops.push(Op::Next { tag: t }),
+            8 => ops.push(Op::MarkLater { tag: t, k: r.below(4) }),
             _ => ops.push(Op::MarkNext { tag: t }),
         }
     }
